@@ -393,6 +393,9 @@ func (rt *runtime) cmplEvaluateNodeTryStatement(node *nodeTryStatement) Value {
 		tryCatchValue, exep = rt.tryCatchEvaluate(func() Value {
 			return rt.cmplEvaluateNodeStatement(node.catch.body)
 		})
+		// 12.14: the catch clause's environment is left before the finally block
+		// runs (the deferred restore stays as the safety net for foreign panics).
+		rt.scope.lexical = outer
 	}
 
 	if node.finally != nil {
